@@ -104,6 +104,11 @@ def theorems_of(pid: str):
     return out, main
 
 
+def prop_modules(pid: str) -> list[str]:
+    thms3, _ = theorems_of(pid)
+    return sorted({"SV.Props." + os.path.splitext(os.path.basename(f))[0] for _, _, f in thms3} | {f"SV.Props.{pid}"})
+
+
 def build_and_audit(pid: str):
     """lake build Props/<pid> (+ driver); #print axioms for each theorem.
     -> dict(obligations, discharged, failed: {name: reason}, axioms: {name: [..]}, log)"""
@@ -344,7 +349,7 @@ def finish(run: Run, audit: dict, gen_problems: list, gen_files: dict, rule: str
     cov = {
         "obligations": audit["obligations"],
         "discharged": audit["discharged"],
-        "checker_cmd": f"cd lean && lake build SV.Props.{pid} && lake env lean SV/Audit/{pid}.lean"
+        "checker_cmd": "cd lean && lake build " + " ".join(prop_modules(pid)) + f" && lake env lean SV/Audit/{pid}.lean"
                        + (" && lake env leanchecker SV.Props." + pid if run.tier == "thorough" else ""),
         "trusted_base": TRUSTED_BASE,
         "evaluations": run.evaluations,
